@@ -16,6 +16,7 @@
 //!       {"do":"poison","l":"a","after_ms":n}        a connection whose service call panics (worker thread dies); the step
 //!                                                   returns n ms after the call started to panic
 //!   "slow_drop_ms": the destructor of listener a's service instances takes that long
+//!       {"do":"connect_panic","l":"a"}             one client whose handler (the service future) panics after it started
 //!       {"do":"connect_rst","l":"a","n":k}         k clients connect to listener a and abort at once (RST)
 //!       {"do":"await_called","count":n,"ms":3000}    wait until n service calls in total have begun
 //!       {"do":"stress","threads":n,"each":m}       n client threads x m short connections on listener a
@@ -45,6 +46,8 @@ use crate::e2e::Log;
 const POISON: u8 = 255;
 /// stress connections: served and finished at once, not logged
 const QUICK: u8 = 254;
+/// a connection whose service FUTURE panics (the worker survives: the panic is the task's)
+const PANIC_FUT: u8 = 253;
 
 enum Client {
     Tcp(#[allow(dead_code)] StdTcpStream),
@@ -128,6 +131,10 @@ async fn serve<S: AsyncReadExt + Unpin>(mut stream: S, tag: &'static str, sh: Ar
     let th = format!("{:?}", thread::current().id());
     if c == POISON {
         return Ok(());
+    }
+    if c == PANIC_FUT {
+        sh.log.emit(json!({"e": "HandlerPanics"}));
+        panic!("the handler of this connection panics");
     }
     if c == QUICK {
         let hold = sh.hold_us.load(Ordering::SeqCst);
@@ -382,6 +389,16 @@ pub fn run_scenario(sc: &Value, dir: &str) -> Vec<Value> {
                 res["served"] = json!(sh.quick.load(Ordering::SeqCst) - before);
                 // (a phase cut short by its deadline has not shown that every connection is served)
                 res["ok"] = json!(ok && sent == threads * each);
+            }
+            "connect_panic" => {
+                // a client whose handler panics after it has started: the connection is over, its slot is free again
+                let before = count(&log, "HandlerPanics");
+                if let Ok(mut s) = StdTcpStream::connect_timeout(&addr_a, Duration::from_secs(3)) {
+                    let _ = s.write_all(&[PANIC_FUT]);
+                    clients.push(Client::Tcp(s));
+                }
+                let ok = wait_until(Duration::from_secs(3), || count(&log, "HandlerPanics") > before);
+                res["ok"] = json!(ok);
             }
             "connect_rst" => {
                 // clients that connect and abort at once (SO_LINGER 0: the kernel sends RST).  A connection that was reset
